@@ -81,6 +81,8 @@ class PathState:
         self.no_fork = 0           # >0 inside quantifier bodies: a real fork is not allowed
         self.known = {}            # z3 term id -> list of (frozenset(scope ids), bool): entailed truth values
         self.on_fact = None        # hook(term): called when a fact is added to the context (equality learning)
+        from .lenabs import LenAbs
+        self.lenabs = LenAbs()     # what the context says about string lengths, in pure LIA
 
     # ---- naming -----------------------------------------------------------------
     def fresh_name(self, base):
@@ -132,6 +134,7 @@ class PathState:
         for c in _conjuncts(t):
             if not _has_quantifier(c):
                 self.solver.add(c)
+                self.lenabs.add(c)
 
     def axiom(self, t):
         """Add an instance of a universally valid fact: holds in every context, so it is not scoped."""
@@ -148,7 +151,15 @@ class PathState:
             self.stats.setdefault('slow_queries', []).append((round(dt, 2), str(r), [str(e)[:200] for e in extra]))
         return r
 
+    def len_must_hold(self, t):
+        """True only if ``t`` (a fact about offsets / lengths) is entailed: decided on the length
+        abstraction of the context, never by the string solver."""
+        self.stats['length_queries'] = self.stats.get('length_queries', 0) + 1
+        return self.lenabs.must_hold(t, self.scopes)
+
     def is_feasible(self, t):
+        if self.lenabs.infeasible(t, self.scopes):
+            return False
         r = self.check(t)
         if r == z3.unknown:
             self.unknown_feasibility += 1
